@@ -44,6 +44,7 @@ class _FixedPerm(np.random.RandomState):
 
 
 class Inject(SxContract):
+    float_replay = True
     fn = "gemclus.mlcl.add_mlcl_constraint"
     safety = False
 
@@ -83,7 +84,7 @@ class Inject(SxContract):
                         f"{[s[0] for s in steps]} vs {want_parts}")
         for ids, Xb, g in steps:
             yield f"batch{ids}: X_batch is X[ids]", prove.holds(
-                Xb.shape == (len(ids), 1) and all(Xb[a, 0] is X[s, 0] for a, s in enumerate(ids)))
+                Xb.shape == (len(ids), 1) and all(Xb[a, 0] is X[s, 0] or (sx.NATIVE and Xb[a, 0] == X[s, 0]) for a, s in enumerate(ids)))
             for a, s in enumerate(ids):
                 for k in range(K):
                     want = G[s, k]
